@@ -2,7 +2,7 @@
    every run (Gen/ImplTables.v, produced by executing the implementation over the whole finite
    domain of each function).  Every lemma here is a closed computation; if the code's tables
    change, this file stops compiling and every property that depends on the table is reported. *)
-From Formula Require Import Lex.Scanner Lex.ScanSpec Syn.Parser Gen.ImplTables Proofs.CharsFacts.
+From Formula Require Import Lex.Scanner Lex.ScanSpec Lex.CaseTables Lex.CaseMap Syn.Parser Gen.ImplTables Proofs.CharsFacts.
 
 Local Open Scope Z_scope.
 
@@ -144,3 +144,17 @@ Lemma diag_codes_tie :
    C_Expression_or_comma_expected; C_Unexpected_end_of_text; C_Unterminated_string_literal;
    C_Multiple_separators; C_Separators_not_allowed; C_Identifier_after_number; C_Trailing_comma].
 Proof. reflexivity. Qed.
+
+(* ---------- case mapping: the builtins upper / lower applied to every one-character string ---------- *)
+
+(* the tables regenerated from the running builtins equal the pinned Unicode tables of the model, and every
+   code point maps to exactly one character *)
+Lemma case_tables_tie :
+  impl_upper_ranges = CaseTables.upper_ranges /\ impl_lower_ranges = CaseTables.lower_ranges /\ impl_case_odd = [].
+Proof. vm_compute. repeat split; reflexivity. Qed.
+
+Theorem upper_all_code_points : forall r, CaseMap.to_upper_rune r = r + CaseMap.case_delta impl_upper_ranges r.
+Proof. intros r. unfold CaseMap.to_upper_rune. rewrite (proj1 case_tables_tie). reflexivity. Qed.
+
+Theorem lower_all_code_points : forall r, CaseMap.to_lower_rune r = r + CaseMap.case_delta impl_lower_ranges r.
+Proof. intros r. unfold CaseMap.to_lower_rune. rewrite (proj1 (proj2 case_tables_tie)). reflexivity. Qed.
